@@ -400,6 +400,154 @@ def judge_conntypes(case, im, mo):
 SCT = common.Stream("conntypes", impl_conntypes, line_conntypes, judge_conntypes, chunk=16)
 
 
+
+# ------------------------------------------------------------------------------------------------ the Orphanage pass alone
+OWN = {"me": 1, "other": 2, "none": None, "replaced": None}
+
+
+def gen_orph(rng):
+    """A module `M`, a second module `O`, objects parented by M / by O / by nobody / once by M and since replaced, and instances of
+    an external module in M whose connections are random trees over those objects (widths and port names do not matter to this
+    pass, which is run alone)."""
+    kinds = ["me"] * 5 + ["other", "none", "replaced"]
+
+    def tree(depth):
+        r = rng.random()
+        if depth == 0 or r < 0.35:
+            k = rng.choice(["sig", "sig", "sig", "bundle", "noconn", "pref", "bref"])
+            if k == "sig":
+                return {"k": "sig", "w": rng.randint(1, 3), "own": rng.choice(kinds)}
+            if k == "bundle":
+                return {"k": "bundle", "own": rng.choice(kinds)}
+            if k == "noconn":
+                return {"k": "noconn"}
+            if k == "pref":
+                return {"k": "pref", "own": rng.choice(["me", "me", "other", "none"]), "port": rng.choice(["a", "b"])}
+            return {"k": "bref", "own": rng.choice(["me", "me", "other", "none"]), "path": rng.choice([["x"], ["s", "u"], ["s"]])}
+        if r < 0.55:
+            p = tree(depth - 1)
+            return {"k": "slice", "p": p, "i": {"i": 0}} if p["k"] in ("sig", "slice", "concat", "pref", "bref") and p.get("path") != ["s"] else p
+        if r < 0.8:
+            ps = [tree(depth - 1) for _ in range(rng.randint(1, 3))]
+            ps = [q for q in ps if q["k"] in ("sig", "slice", "concat", "pref", "bref") and q.get("path") != ["s"]]
+            return {"k": "concat", "ps": ps} if ps else {"k": "noconn"}
+        return {"k": "anon", "fields": [[f"m{j}", tree(depth - 1)] for j in range(rng.randint(1, 3))]}
+
+    conns = [[tree(rng.choice([0, 1, 2, 3])) for _ in range(rng.randint(1, 3))] for _ in range(rng.randint(1, 3))]
+    return {"conns": conns, "rob": rng.random() < 0.15, "judge_other": rng.random() < 0.2}
+
+
+def impl_orph(case):
+    import hdl21.elab as elab
+    from hdl21.elab.passes import Orphanage as OrphanagePass
+
+    B = h.Bundle(name="OB")
+    B.x = h.Signal()
+    S = h.Bundle(name="OS")
+    S.u = h.Signal(width=2)
+    B.s = S()
+    E = h.ExternalModule(name="OE", port_list=[h.Port(name="a"), h.Port(name="b")], paramtype=dict)
+    M, O = h.Module(name="M"), h.Module(name="O")
+    count = [0]
+
+    def fresh(prefix):
+        count[0] += 1
+        return f"{prefix}{count[0]}"
+
+    def place(obj, own, prefix):
+        name = fresh(prefix)
+        if own == "me":
+            M.add(obj, name=name)
+        elif own == "other":
+            O.add(obj, name=name)
+        elif own == "replaced":
+            M.add(obj, name=name)
+            M.add(type(obj)(width=obj.width) if isinstance(obj, h.Signal) else B(), name=name)  # the name now holds another object
+        else:
+            obj.name = name
+        return obj
+
+    def mk(c):
+        k = c["k"]
+        if k == "sig":
+            return place(h.Signal(width=c["w"]), c["own"], "s")
+        if k == "bundle":
+            return place(B(), c["own"], "b")
+        if k == "noconn":
+            return h.NoConn()
+        if k == "pref":
+            return getattr(place(h.Instance(of=E({})), c["own"], "t"), c["port"])
+        if k == "bref":
+            r = place(B(), c["own"], "b")
+            for seg in c["path"]:
+                r = getattr(r, seg)
+            return r
+        if k == "slice":
+            return mk(c["p"])[0]
+        if k == "concat":
+            return h.Concat(*[mk(p) for p in c["ps"]])
+        if k == "anon":
+            return h.AnonymousBundle(**{f: mk(v) for f, v in c["fields"]})
+        raise ValueError(k)
+
+    try:
+        for cs in case["conns"]:
+            inst = M.add(h.Instance(of=E({})), name=fresh("i"))
+            for j, c in enumerate(cs):
+                inst.connect(f"p{j}", mk(c))
+        if case["rob"]:
+            victim = h.Signal()
+            O.add(victim, name="victim")
+            M.victim = victim  # re-filed: now parented by M, still in O's namespace
+    except Exception as ex:  # noqa
+        return {"build_error": common.errstr(ex)}
+    target = O if case["judge_other"] else M
+    try:
+        elab.Elaborator(passes=[OrphanagePass]).elaborate(target)
+        return {"passes": True}
+    except RuntimeError as ex:
+        return {"passes": False, "msg": str(ex)[-160:]}
+    except Exception as ex:  # noqa
+        return {"passes": False, "other_exception": common.errstr(ex)}
+
+
+def line_orph(case):
+    def conv(c):
+        k = c["k"]
+        if k == "sig":
+            return {"k": "sig", "n": "s", "w": c["w"], "o": OWN[c["own"]]}
+        if k == "bundle":
+            return {"k": "bundle", "n": "b", "o": OWN[c["own"]]}
+        if k in ("pref", "bref"):
+            return dict(c, o=OWN[c["own"]])
+        if k == "slice":
+            return {"k": "slice", "p": conv(c["p"]), "i": c["i"]}
+        if k == "concat":
+            return {"k": "concat", "ps": [conv(p) for p in c["ps"]]}
+        if k == "anon":
+            return {"k": "anon", "fields": [[f, conv(v)] for f, v in c["fields"]]}
+        return c
+    if case["judge_other"]:
+        # O holds no instances; of its namespace only a robbed signal is parented elsewhere (what O owns itself is fine)
+        attrs = [{"key": "victim", "name": "victim", "o": 1}] if case["rob"] else []
+        return {"prop": "OR", "op": "check", "me": 2, "attrs": attrs, "conns": []}
+    return {"prop": "OR", "op": "check", "me": 1, "attrs": [], "conns": [conv(c) for cs in case["conns"] for c in cs]}
+
+
+def judge_orph(case, im, mo):
+    if "build_error" in im:
+        yield ("corr", f"harness could not build the case: {im['build_error']}")
+        return
+    if mo["conns"] != mo["owners_all_mine"]:
+        yield ("oracle", "the recursive check and its declarative reading disagree in the model")
+    if im["passes"] and not mo["passes"]:
+        yield ("pred", "a module depending on an object owned by another module or by none passed the ownership check")
+    elif not im["passes"] and mo["passes"]:
+        yield ("corr", f"the ownership check refused a module whose every object is its own: {im}")
+
+
+SOR = common.Stream("orphanage", impl_orph, line_orph, judge_orph, chunk=16)
+
 def run(ctx):
     rep, rng = ctx.rep, ctx.rng
     rep.extra["rule"] = (
@@ -449,6 +597,7 @@ def run(ctx):
                      {"why": f"ill-formed generated design ({o['src']['error']}) accepted by {returned}", "impl": im})
     rep.extra["by_class"] = by_class
     SCT.run(ctx, [gen_conntypes(rng) for _ in range(300 if ctx.quick else 6000)])
+    SOR.run(ctx, [gen_orph(rng) for _ in range(300 if ctx.quick else 6000)])
     rep.extra["bases"] = len(valid)
     rep.extra["model_accepts_mutant"] = len(muts) - len(ill)
     if ill:
